@@ -143,10 +143,12 @@ def run(ctx):
                 "unrelated traffic), with and without -m. Every exported packet is traced back to its origin. non-trivial "
                 "iff some record spans ≥ 2 input packets or TLS and QUIC are both present.")
     ctx.assumptions = ["microsecond timestamps: input timestamps are integer µs; the output is read back as integer µs"]
-    ctx.prove(["TLX.Props.C07", "TLX.Props.C05"])
-    ctx.require_theorems(THEOREMS)
+    import session_corr
+    ctx.prove(["TLX.Props.C07", "TLX.Props.C05", "TLX.Props.C07Session"])
+    ctx.require_theorems(THEOREMS + session_corr.THEOREMS_C07)
     import c06_model
     c06_model.run_model(ctx)          # ties TLX.TcpOut (the model the theorems are about) to the real OutputBuilder
+    session_corr.correspond(ctx)      # ties TLX.Session to the real Session
     explore(ctx)
     return ctx.finish(search=lambda c: explore(c, scale=2))
 
